@@ -53,6 +53,12 @@ def split_add(e):
 def classify_advance(F, body, e, depth=0):
     """Provenance of an advance amount; returns a description or None."""
     s = strip_expr(e)
+    # `let pos = latest_pos?;` on an Option: the Continue payload of Try::branch(x) is the Some payload of x
+    if s[0] == "place" and isinstance(s[1], tuple) and s[1][0] == "call" and s[1][1].endswith("Try>::branch") and s[1][2] and depth < 4:
+        inner = strip_expr(s[1][2][0])
+        r = classify_advance(F, body, inner, depth + 1)
+        if r:
+            return r
     txt = show(s)
     if s[0] == "const" and s[1].get("int") is not None:
         return "literal %d" % s[1]["int"]
@@ -247,8 +253,15 @@ def run(ck, F, E):
         for b, i, pl, rv, sp in aggregates(body, "tokenizer::Tokenizer"):
             names = F.adt_fields("tokenizer::Tokenizer")
             v = strip_expr(body.expr(rv["ops"][names.index("index")]))
-            ck.require(v[0] == "const" and v[1].get("int") == 0, "C13:CURSOR:new-zero", "monotone cursor",
-                       "Tokenizer starts with index 0", "Tokenizer is constructed with a non-zero cursor", sp)
+            fresh = v[0] == "const" and v[1].get("int") == 0
+            if not fresh:
+                # `Tokenizer { index: self.index + e, ..self }`: the functional-update spelling of `self.index += e` (skip_bytes)
+                amt = split_add(body.expr(rv["ops"][names.index("index")]))
+                if amt is not None and classify_advance(F, body, amt) is not None:
+                    fresh = True
+            ck.require(fresh, "C13:CURSOR:new-zero", "monotone cursor",
+                       "Tokenizer starts with index 0 (or is rebuilt from itself with the cursor advanced by a classified amount)",
+                       "Tokenizer is constructed with a non-zero cursor", sp)
     ck.floor("C13.writes to Tokenizer.index", n_writes, 8)
 
     # a token matcher never skips blanks on its own: chomp_leading_whitespace() (the only function that may advance by
